@@ -153,7 +153,7 @@ def draw_label_codes(draw, n: int, ngroups: int, style: str):
     raise KeyError(style)
 
 
-LABEL_STYLES = ["random", "random", "sorted", "runs", "periodic", "constant", "blocks", "random", "sorted", "runs", "periodic", "blocks", "distinct"]
+LABEL_STYLES = ["random", "random", "sorted", "runs", "periodic", "constant", "blocks"]  # "distinct" is opted into per check (C10, C12)
 
 
 def draw_labels(draw, n: int, *, kinds=None, max_groups=6, missing=True, styles=None, allow_all_missing=False):
